@@ -400,6 +400,7 @@ esl_hxp_invcdf(double p, ESL_HYPEREXP *h)
 
   do {				/* bisection */
     xm = (x1+x2) / 2.;
+    if (xm <= x1 || xm >= x2) break; /* x1,x2 are adjacent doubles: can't do better */
     fm = esl_hxp_cdf(xm, h);
     
     if      (fm > p) x2 = xm;
